@@ -503,8 +503,10 @@ class Engine:
             if isinstance(n, Dict):
                 return n.dom[self.unwrap(x, n.kkind)]
             if isinstance(n, Arr):
-                k = fresh('k', I)
-                return z3.Exists([k], z3.And(0 <= k, k < n.n, n.a[k] == self.unwrap(x, n.elem)))
+                # a canonical bound variable: two membership tests of the same element in the same sequence are the
+                # same term (no instantiation needed to see that they agree)
+                k = z3.Int('mem!k')
+                return z3.Exists([k], z3.And(0 <= k, k < n.n, n.a[k] == self.unwrap(x, n.elem)), patterns=[n.a[k]])
             if isinstance(n, Obj):
                 return self.world.obj_contains(self, st, cont, n, x)
         if cont.kind == 'inner':
@@ -513,8 +515,8 @@ class Engine:
         if cont.kind == 'dictval':
             return cont.dom[self.unwrap(x, cont.kkind)]
         if cont.kind == 'arrval':
-            k = fresh('k', I)
-            return z3.Exists([k], z3.And(0 <= k, k < cont.n, cont.a[k] == self.unwrap(x, cont.elem)))
+            k = z3.Int('mem!k')
+            return z3.Exists([k], z3.And(0 <= k, k < cont.n, cont.a[k] == self.unwrap(x, cont.elem)), patterns=[cont.a[k]])
         if cont.kind == 'range':
             xi = to_int(x)
             return z3.And(cont.lo <= xi, xi < cont.hi)
